@@ -966,7 +966,7 @@ private:
 
 static ConstQueryFilterRef MaybeNegate(bool doNegate, const ConstQueryFilterRef & qf) {return ((doNegate)&&(qf())) ? QueryFilterRef(new NorQueryFilter(qf)) : qf;}
 
-static ConstQueryFilterRef CreateQueryFilterFromExpressionAux(Lexer & lexer, const ISubexpressionFactory & sef)
+static ConstQueryFilterRef CreateQueryFilterFromExpressionAux(Lexer & lexer, const ISubexpressionFactory & sef, uint32 maxNestingDepth)
 {
    Queue<LexerToken> localToks;
 
@@ -988,7 +988,8 @@ static ConstQueryFilterRef CreateQueryFilterFromExpressionAux(Lexer & lexer, con
 
          case LTOKEN_LPAREN:          // (
             if ((subRef())||(localToks.HasItems())) return B_ERROR("'(' must be the first token in a subexpression");
-            subRef = CreateQueryFilterFromExpressionAux(lexer, sef);
+            if (maxNestingDepth == 0) return B_ERROR("Parenthesized subexpressions are nested too deeply");  // avoid stack overflow on pathological input
+            subRef = CreateQueryFilterFromExpressionAux(lexer, sef, maxNestingDepth-1);
             MRETURN_ON_ERROR(subRef);
          break;
 
@@ -1101,7 +1102,7 @@ ConstQueryFilterRef CreateQueryFilterFromExpression(const String & expression, c
    if (optSubexpressionFactory == NULL) optSubexpressionFactory = &defSef;
 
    Lexer lexer(expression);
-   return CreateQueryFilterFromExpressionAux(lexer, *optSubexpressionFactory);
+   return CreateQueryFilterFromExpressionAux(lexer, *optSubexpressionFactory, MUSCLE_MAX_QUERY_EXPRESSION_NESTING_DEPTH);
 }
 
 template<typename NQFType> QueryFilterRef GetNumericQueryFilter(const LexerToken & infixOpTok, const String & fieldName, uint32 subIdx, const LexerToken & valTok, const LexerToken & optDefaultValue)
